@@ -5,7 +5,7 @@ from . import core, fitgen, c04, c01, c07
 
 CLASSES = ["BinaryCarver", "ContinuousCarver", "MulticlassCarver", "Discretizer", "QuantitativeDiscretizer", "QualitativeDiscretizer"]
 DEFECTS = ["y_nan", "y_classes", "y_index", "x_not_frame", "y_not_series", "missing_col", "missing_col_dev", "both_types",
-           "str_in_quant", "not_in_ranking", "bad_sort_by", "refit", "y_len"]
+           "str_in_quant", "not_in_ranking", "bad_sort_by", "refit", "y_len", "y_dev_not_series"]
 
 
 def target_for(cls):
@@ -104,8 +104,16 @@ def inject(rng, cls, ds, cfg, defect):
     if defect == "missing_col_dev":
         if not is_carver or ds["X_dev"] is None or not feats:
             return None
-        Xd = ds["X_dev"].drop(columns=[rng.choice(feats)])
+        # (preferably the column of a feature that the discretization step will drop - an identifier-like column: the
+        # declared features are checked, not only the ones that survive)
+        idl = [f for f in feats if f.startswith("id")]
+        Xd = ds["X_dev"].drop(columns=[rng.choice(idl) if idl and rng.random() < 0.6 else rng.choice(feats)])
         return lambda obj: fit(obj, ds, X_dev=Xd)
+    if defect == "y_dev_not_series":
+        if not is_carver or ds["X_dev"] is None:
+            return None
+        yd = ds["y_dev"].to_numpy() if rng.random() < 0.5 else ds["y_dev"].tolist()
+        return lambda obj: fit(obj, ds, y_dev=yd)
     if defect == "both_types":
         if not is_carver or not ds["quantitative"]:
             return None
@@ -174,6 +182,12 @@ def check_case(rng, stats):
             break
     if not ds["ok_target"]:
         return fails
+    if cls.endswith("Carver") and rng.random() < 0.3:
+        # an identifier-like categorical column (every modality rarer than min_freq): declared, then dropped by the discretization
+        ds["X"]["id0"] = pd.Series([f"u{i}" for i in range(len(ds["X"]))], dtype=object, index=ds["X"].index)
+        if ds["X_dev"] is not None:
+            ds["X_dev"]["id0"] = pd.Series([f"u{i}" for i in range(len(ds["X_dev"]))], dtype=object, index=ds["X_dev"].index)
+        ds["qualitative"] = list(ds["qualitative"]) + ["id0"]
     cfg = fitgen.gen_config(rng, target)
     stats["cases"] += 1
     desc = {"class": cls, "cfg": cfg, "kinds": ds["kinds"], "X": fitgen.frame_wire(ds["X"]), "y": [fitgen.cell(v) for v in ds["y"].tolist()]}
